@@ -1,5 +1,6 @@
 """C11 — the solution object is a faithful, self-consistent report of one schedule."""
 import copy
+import warnings
 import random
 
 from . import common
@@ -44,6 +45,13 @@ def generate(tier, seed):
                 continue
             cases.append({"cid": f"nohorizon-{name}-{j}", "family": "nohorizon", "kind": "solve", "spec": s3,
                           "plan": {"solver": cfg, "py_seed": seed * 31 + idx + j}, "user_horizon": False})
+    # several solutions out of one solver: selections / optional tasks / cumulative workers whose assignment changes
+    for idx, (name, spec) in enumerate(cells):
+        if any(k in name for k in ("selection.exact1of2", "selection.min1of2", "two_selections", "one_worker.fo", "cumulative2.fvo",
+                                   "selection_dup.exact1", "two_cumulative.fo")):
+            for mode in ("another", "variable"):
+                cases.append({"cid": f"chain-{name}-{mode}", "family": "solution-chain", "kind": "chain", "spec": spec,
+                              "mode": mode, "steps": 6 if tier == "quick" else 20})
     # no user horizon, a precedence whose successor is optional: the reported horizon still covers the predecessor
     from ..families import base, fx, vr
     for mode in ("lax", "strict", "tight"):
@@ -81,7 +89,48 @@ def generate(tier, seed):
     return cases
 
 
+def run_chain(case):
+    """several solutions built by ONE solver object (solve, then find_another_solution / ..._for_variable): every one of
+    them is judged like a first solution (nothing may be carried over from the previous ones)"""
+    from .. import probe as pr
+    from .. import observe as obs
+    acc = common.Acc(PREFIXES)
+    spec = case["spec"]
+    res = pr.run_solve(spec, {"solver": case.get("solver", {})}, keep=True)
+    acc.executions += 1
+    if res["outcome"] != "sat":
+        acc.count(acc.outcomes, res["outcome"])
+        acc.empty_ok = True
+        return acc.result()
+    b, solver = res["_built"], res["_solver"]
+    common.judge_observed(acc, spec, res, tag="chain0")
+    mand = [t["name"] for t in spec["tasks"] if not t.get("optional")]
+    n = 0
+    for step in range(case["steps"]):
+        try:
+            with warnings.catch_warnings():
+                warnings.simplefilter("ignore")
+                if case["mode"] == "variable" and mand:
+                    sol = solver.find_another_solution_for_variable(b.tasks[mand[0]]._start)
+                else:
+                    sol = solver.find_another_solution()
+        except Exception as exc:  # pylint: disable=broad-except
+            acc.count(acc.outcomes, f"exc:{type(exc).__name__}")
+            break
+        acc.executions += 1
+        if not sol:
+            break
+        n += 1
+        common.judge_observed(acc, spec, {"sched": obs.observe(b, sol, solver._model)}, tag=f"chain{min(step + 1, 3)}")
+    acc.count(acc.outcomes, f"chain_solutions>={min(n, 3)}")
+    acc.sigs.add(common.h([common.h(spec), case["mode"], case["steps"]]))
+    acc.sample = {"spec": spec, "mode": case["mode"], "solutions_judged": n + 1}
+    return acc.result()
+
+
 def run_case(case):
+    if case["kind"] == "chain":
+        return run_chain(case)
     return common.run_generic(case, PREFIXES)
 
 
